@@ -1,7 +1,7 @@
 (* Property C11 — every field is reported exactly once with the correct status; filtered fields cannot
    affect the verdict; the callback fires once per performed comparison. *)
 From Coq Require Import Arith Bool List Permutation.
-From FC Require Import Model.Compare Proofs.CompareP.
+From FC Require Import Model.Compare Proofs.CompareP Model.Glob Proofs.GlobP.
 Import ListNotations.
 
 Theorem C11_matching_partition : forall src ref,
@@ -58,6 +58,16 @@ Theorem C11_domain_fail_empty : forall incl excl out src ref,
   suite_bool (compare false incl excl out src ref) = false.
 Proof. exact domain_fail_empty. Qed.
 Print Assumptions C11_domain_fail_empty.
+
+(* the field filters of the command line (Model/Glob.v: PatternFilter over fnmatch): without --include-fields every field is
+   selected and without --exclude-fields none is excluded; a pattern without wildcard characters names exactly one field *)
+Theorem C11_default_field_filters : forall name, pattern_filter include_all name = true /\ pattern_filter exclude_all name = false.
+Proof. intros. split; [apply include_all_accepts|apply exclude_all_rejects]. Qed.
+Print Assumptions C11_default_field_filters.
+
+Theorem C11_plain_pattern_names_one_field : forall p name, plain p = true -> (fnmatch name p = true <-> name = p).
+Proof. exact plain_pattern_matches_itself_only. Qed.
+Print Assumptions C11_plain_pattern_names_one_field.
 
 Example C11_nonvacuous :
   let f n b := {| fname := n; fbase := b |} in
